@@ -1,8 +1,10 @@
 package gocv
 
 import (
+	"crypto/sha1"
 	"fmt"
 	"go/ast"
+	"sort"
 	"go/types"
 	"strings"
 )
@@ -10,6 +12,38 @@ import (
 // verifyClosure checks a function literal as a function of its own: it may run
 // at any later time, so everything it can observe that may have changed is
 // havocked first (reassigned captured variables, the heap, ghost state).
+// closureContextIsNew: a function literal's `closure N ensures` clauses are verified in the context of the
+// path that creates it, and they are assumed wherever the closure is later handed to a callee on an
+// extension of that path. So the literal is verified once per DISTINCT creating context (path condition and
+// variable values), not once per function: verifying it only on the first path that reaches it let an
+// infeasible first path prove anything (found by a contract author with a bogus clause).
+func (ex *Exec) closureContextIsNew(st *State, lit *ast.FuncLit) bool {
+	h := sha1.New()
+	fmt.Fprintf(h, "%p|", lit)
+	for _, c := range st.pc {
+		h.Write([]byte(c))
+		h.Write([]byte{0})
+	}
+	var vs []string
+	for obj, v := range st.vars {
+		vs = append(vs, obj.Name()+"="+v.T)
+	}
+	sort.Strings(vs)
+	for _, v := range vs {
+		h.Write([]byte(v))
+		h.Write([]byte{0})
+	}
+	key := string(h.Sum(nil))
+	if ex.cloContexts == nil {
+		ex.cloContexts = map[string]bool{}
+	}
+	if ex.cloContexts[key] {
+		return false
+	}
+	ex.cloContexts[key] = true
+	return true
+}
+
 func (ex *Exec) verifyClosure(st *State, clo *Closure, ord int, ls *LoopSpec) {
 	lit := clo.Lit
 	for obj := range st.vars {
